@@ -106,14 +106,28 @@ func (s *Storer) newRunId(id string) error {
 		return err
 	}
 
+	// The same id again (StartPoint -> VerifyRunId at every source reconnect):
+	// the live index is authoritative. Re-scanning the directory would replace it
+	// by a fresh one that knows nothing of the open readers and writers: their
+	// references vanish, the collector removes the segments they read and they are
+	// never closed any more.
+	if id == s.runId && dir == s.dir {
+		return nil
+	}
+
 	s.runId = id
 	s.dir = dir
 
 	rdbAof := s.initDataSet()
 	if rdbAof != nil {
 		s.dataSetMux.Lock()
+		old := s.dataSet
 		s.dataSet = rdbAof
 		s.dataSetMux.Unlock()
+		// replication-id switch: whatever is still open on the old index ends here
+		if old != nil {
+			old.Close()
+		}
 	}
 
 	return nil
